@@ -21,7 +21,6 @@ var builtInOpers = []oper.Operator{
 func newLexicon(ops []oper.Operator) lexicon {
 	l := lexicon{}
 
-	l.addRule(str(token.COLON)) // :
 	l.addRule(str(token.COMMA)) // ,
 
 	l.addRule(str(token.LEFT_PAREN))    // (
@@ -44,6 +43,9 @@ func newLexicon(ops []oper.Operator) lexicon {
 	for _, op := range oper.Sort(ops) {
 		l.addOper(op.Kind)
 	}
+
+	// : 放在自定义操作符之后, 否则以 : 开头的自定义操作符 (e.g. :: :=) 永远无法匹配
+	l.addRule(str(token.COLON)) // :
 
 	l.addRule(keyword(token.TRUE))  // true
 	l.addRule(keyword(token.FALSE)) // false
